@@ -312,7 +312,8 @@ func vC19Catalogue(seed int64, ngen int) []*vC19Token {
 	add("esc_html", "escape", `{"h":"<script>alert('x') & \"y\"</script>","amp":"&amp;","k<>&":"v"}`)
 	add("esc_case", "escape", `{"a":"\u00E9\u00e9","b":"\/\\","c":"\u0041"}`)
 	// --- keys resembling reserved names (top level non-reserved; reserved names nested are legal)
-	add("key_like", "keylike", `{"id":"x","rev":"1-abc","_idx":1,"__rev":2,"_ids":[1],"deleted":true,"attachments":{},"sync":{"a":1},"exp":5,"_Id":"cap","_REV":"caps","_Sync":0}`)
+	add("key_like", "keylike", `{"id":"x","rev":"1-abc","_idx":1,"__rev":2,"_ids":[1],"deleted":true,"attachments":{},"sync":{"a":1},"exp":5,"_Id":"cap","_REV":"caps"}`)
+	add("key_sync_case", "keycase_sync", `{"_Sync":0,"_SYNC":{"rev":"1-a"},"a":1}`)
 	add("key_us", "underscore_user", `{"_":1,"__":2,"_foo":"bar","_cookie":{"a":1},"_0":[],"_syn":1,"_sync2":2,"_syncX_":3,"_attachment":{},"_revision":1,"_removedx":true}`)
 	add("key_nested_reserved", "keylike", `{"n":{"_id":"x","_rev":"1-a","_deleted":true,"_attachments":{"a":{"data":"aGk="}},"_sync":{"rev":"9-x"},"_exp":5,"_removed":true,"_purged":true,"_revisions":{"start":1,"ids":["a"]},"_cv":"1@a","_sync_x":1},"a":[{"_id":1,"_rev":null}]}`)
 	add("key_case", "keycase", `{"key":1,"Key":2,"KEY":3,"kEY":{"a":1,"A":2},"ß":1,"SS":2,"ı":3,"i":4,"I":5}`)
@@ -546,12 +547,17 @@ type vC19Env struct {
 }
 
 func (e *vC19Env) send(method, path, body string) *TestResponse {
-	return e.rt.SendAdminRequestWithHeaders(method, path, body, map[string]string{"Accept": "application/json"})
+	if strings.Contains(path, "open_revs=") {
+		return e.rt.SendAdminRequestWithHeaders(method, path, body, map[string]string{"Accept": "application/json"})
+	}
+	return e.rt.SendAdminRequest(method, path, body)
 }
 
 func vC19RevField(body []byte, field string) string {
+	dec := json.NewDecoder(bytes.NewReader(body))
+	dec.UseNumber()
 	var m map[string]any
-	if json.Unmarshal(body, &m) != nil {
+	if dec.Decode(&m) != nil {
 		return ""
 	}
 	s, _ := m[field].(string)
@@ -663,20 +669,13 @@ func (e *vC19Env) doWrite(in *vC19Inst, wp, mode string, wins bool, tok *vC19Tok
 		rev, revisions := neRev()
 		props := `"_id":` + vC19Quote(id) + `,"_rev":` + vC19Quote(rev) + `,` + revisions
 		resp := e.send("POST", "/"+e.ks+"/_bulk_docs", `{"new_edits":false,"docs":[`+vC19Splice(tok, props)+`]}`)
-		st, r := vC19BulkStatus(resp)
-		if r == "" {
-			r = rev
-		}
-		return st, r
+		st, _ := vC19BulkStatus(resp) // the response carries the document's WINNING revision, not the one just added
+		return st, rev
 	case "PutSingleNE":
 		rev, revisions := neRev()
 		props := `"_rev":` + vC19Quote(rev) + `,` + revisions
 		resp := e.send("PUT", "/"+e.ks+"/"+id+"?new_edits=false", vC19Splice(tok, props))
-		r := vC19RevField(resp.Body.Bytes(), "rev")
-		if r == "" {
-			r = rev
-		}
-		return resp.Code, r
+		return resp.Code, rev
 	case "ExtImport":
 		ctx := e.rt.Context()
 		if mode == "create" {
@@ -929,7 +928,7 @@ func (in *vC19Inst) judge(rd *vC19Read, status int, body []byte, found bool) {
 	}
 }
 
-func (e *vC19Env) runReads(in *vC19Inst, cache string, changes map[string][]byte, changesOK bool) {
+func (e *vC19Env) runReads(in *vC19Inst, cache string, changes vC19Changes) {
 	if in.dead {
 		return
 	}
@@ -1030,11 +1029,13 @@ func (e *vC19Env) runReads(in *vC19Inst, cache string, changes map[string][]byte
 				in.judge(rd, st, rb, true)
 			}
 		case "Changes":
-			if !changesOK {
-				break // feed not observable for this batch (recorded in the meta file)
+			if !changes.inFeed[id] {
+				break // the feed does not list the document at all: not observable (recorded in the meta file)
 			}
-			if docb, ok := changes[id]; ok {
+			if docb, ok := changes.docs[id]; ok {
 				in.judge(rd, 200, docb, true)
+			} else {
+				in.judge(rd, 404, nil, false) // listed by the plain feed, dropped by the include_docs feed
 			}
 		case "BlipPull", "PeerPush", "PeerPull":
 			// filled in by the replication phases
@@ -1044,55 +1045,54 @@ func (e *vC19Env) runReads(in *vC19Inst, cache string, changes map[string][]byte
 	}
 }
 
-// changesDocs: one _changes?include_docs request covering the batch; doc bodies by id
-func (e *vC19Env) changesDocs(since uint64, want map[string]bool) (map[string][]byte, bool) {
-	res := map[string][]byte{}
-	deadline := time.Now().Add(20 * time.Second)
-	for {
-		r := e.send("GET", fmt.Sprintf("/%s/_changes?include_docs=true&since=%d", e.ks, since), "")
-		var out struct {
-			Results []struct {
-				ID  string          `json:"id"`
-				Doc json.RawMessage `json:"doc"`
-			} `json:"results"`
-		}
-		if r.Code != 200 {
-			return res, false
-		}
-		// the envelope is decoded row by row so that one broken row does not hide the others
-		if err := json.Unmarshal(r.Body.Bytes(), &out); err != nil {
-			return vC19ChangesLenient(r.Body.Bytes()), true
-		}
-		res = map[string][]byte{}
-		for _, row := range out.Results {
-			if want[row.ID] && len(row.Doc) > 0 {
-				res[row.ID] = row.Doc
-			}
-		}
-		if len(res) >= len(want) || time.Now().After(deadline) {
-			return res, true
-		}
-		time.Sleep(20 * time.Millisecond)
-	}
+// vC19Changes is what one pair of _changes requests (without and with include_docs) said about a batch of documents
+type vC19Changes struct {
+	inFeed map[string]bool   // listed by the plain feed
+	docs   map[string][]byte // "doc" member of the include_docs feed (or the raw response when it is not valid JSON)
 }
 
-// vC19ChangesLenient splits a changes response line by line (the handler writes one row per line) when the envelope
-// as a whole is not valid JSON; rows that do not parse are reported with their raw bytes as the "doc".
-func vC19ChangesLenient(b []byte) map[string][]byte {
-	res := map[string][]byte{}
-	for _, line := range bytes.Split(b, []byte("\n")) {
-		line = bytes.TrimPrefix(bytes.TrimSpace(line), []byte(","))
-		var row struct {
-			ID  string          `json:"id"`
-			Doc json.RawMessage `json:"doc"`
+type vC19ChangesResp struct {
+	Results []struct {
+		ID  string          `json:"id"`
+		Doc json.RawMessage `json:"doc"`
+	} `json:"results"`
+}
+
+// changesDocs: the batch is listed once without bodies (which documents does the feed know at all) and once with
+// include_docs.  When the include_docs response as a whole is not valid JSON (one broken row spoils it), every document
+// is asked for on its own, so that only the broken one is judged.
+func (e *vC19Env) changesDocs(since uint64, want map[string]bool) vC19Changes {
+	res := vC19Changes{inFeed: map[string]bool{}, docs: map[string][]byte{}}
+	var plain vC19ChangesResp
+	r := e.send("GET", fmt.Sprintf("/%s/_changes?since=%d", e.ks, since), "")
+	if r.Code != 200 || json.Unmarshal(r.Body.Bytes(), &plain) != nil {
+		e.t.Fatalf("VERIF-FATAL plain _changes failed: %d %.300s", r.Code, r.Body.String())
+	}
+	for _, row := range plain.Results {
+		if want[row.ID] {
+			res.inFeed[row.ID] = true
 		}
-		if json.Unmarshal(line, &row) == nil && row.ID != "" {
-			res[row.ID] = row.Doc
-		} else if i := bytes.Index(line, []byte(`"id":"`)); i >= 0 {
-			rest := line[i+6:]
-			if j := bytes.IndexByte(rest, '"'); j > 0 {
-				res[string(rest[:j])] = line
+	}
+	r = e.send("GET", fmt.Sprintf("/%s/_changes?include_docs=true&since=%d", e.ks, since), "")
+	var out vC19ChangesResp
+	if r.Code == 200 && json.Unmarshal(r.Body.Bytes(), &out) == nil {
+		for _, row := range out.Results {
+			if want[row.ID] && len(row.Doc) > 0 {
+				res.docs[row.ID] = row.Doc
 			}
+		}
+		return res
+	}
+	for id := range res.inFeed {
+		rr := e.send("GET", fmt.Sprintf("/%s/_changes?include_docs=true&since=%d&filter=_doc_ids&doc_ids=%s", e.ks, since, url.QueryEscape(`["`+id+`"]`)), "")
+		var one vC19ChangesResp
+		if rr.Code != 200 {
+			continue
+		}
+		if json.Unmarshal(rr.Body.Bytes(), &one) != nil {
+			res.docs[id] = rr.Body.Bytes() // recorded as returned: not valid JSON
+		} else if len(one.Results) == 1 && len(one.Results[0].Doc) > 0 {
+			res.docs[id] = one.Results[0].Doc
 		}
 	}
 	return res
@@ -1221,10 +1221,13 @@ func TestVerif_C19_BodyPaths(t *testing.T) {
 	// ---- batches: writes, warm reads, revision cache emptied, cold reads
 	batch := vEnvInt("VERIF_C19_BATCH", 200)
 	unobserved := []vObj{}
+	t0 := time.Now()
+	var dWrite, dRead time.Duration
 	for lo := 0; lo < len(insts); lo += batch {
 		hi := min(lo+batch, len(insts))
 		since, _ := rt.GetDatabase().LastSequence(rt.Context())
 		want := map[string]bool{}
+		tw0 := time.Now()
 		for _, in := range insts[lo:hi] {
 			e.runWrites(in)
 			if !in.dead && len(in.revIDs) > 0 {
@@ -1232,19 +1235,41 @@ func TestVerif_C19_BodyPaths(t *testing.T) {
 			}
 		}
 		rt.WaitForPendingChanges()
+		dWrite += time.Since(tw0)
+		tr0 := time.Now()
 		for _, cache := range []string{"warm", "cold"} {
 			if cache == "cold" {
 				rt.GetDatabase().FlushRevisionCacheForTest()
 			}
-			ch, chOK := e.changesDocs(since, want)
+			ch := e.changesDocs(since, want)
 			for _, in := range insts[lo:hi] {
-				e.runReads(in, cache, ch, chOK)
+				e.runReads(in, cache, ch)
 			}
 		}
+		dRead += time.Since(tr0)
 	}
+	fmt.Printf("VERIF-C19 %d instances, %d tokens: writes %.1fs reads %.1fs total %.1fs\n", len(insts), len(toks), dWrite.Seconds(), dRead.Seconds(), time.Since(t0).Seconds())
 
 	// ---- emit
 	nlines := 0
+	wpSet, rpSet := map[string]bool{}, map[string]bool{}
+	for _, b := range behs {
+		for _, st := range b.Steps {
+			wpSet[st.Wp] = true
+		}
+		for _, c := range b.Reads {
+			rpSet[c.Rp] = true
+		}
+	}
+	wps, rps := []string{}, []string{}
+	for k := range wpSet {
+		wps = append(wps, k)
+	}
+	for k := range rpSet {
+		rps = append(rps, k)
+	}
+	sort.Strings(wps)
+	sort.Strings(rps)
 	for _, in := range insts {
 		ids := []string{}
 		classes := []string{}
@@ -1252,32 +1277,36 @@ func TestVerif_C19_BodyPaths(t *testing.T) {
 			ids = append(ids, tk.ID)
 			classes = append(classes, tk.Class)
 		}
-		tw.Emit(vObj{"a": "Reset", "inst": in.idx, "beh": in.behIdx, "doc": in.docID, "toks": ids, "cls": classes})
+		tw.Emit(vObj{"a": "Reset", "inst": in.idx, "beh": in.behIdx, "doc": in.docID, "toks": ids, "cls": classes, "wps": wps, "rps": rps})
 		nlines++
 		for _, ev := range in.events {
 			tw.Emit(ev)
 			nlines++
 		}
+		if in.dead || len(in.revIDs) == 0 {
+			continue
+		}
+		items, skipped := []vObj{}, []vObj{}
 		for _, rd := range in.reads {
-			if in.dead {
-				continue
+			if rd.cell.Rev > len(in.revIDs) {
+				continue // belongs to a write that was refused
 			}
+			tk := in.toks[rd.cell.Expect-1]
 			if !rd.done {
-				if rd.cell.Rev <= len(in.revIDs) {
-					unobserved = append(unobserved, vObj{"inst": in.idx, "doc": in.docID, "rp": rd.cell.Rp, "cache": rd.cell.Cache,
-						"tok": in.toks[rd.cell.Expect-1].ID, "cls": in.toks[rd.cell.Expect-1].Class})
-				}
+				skipped = append(skipped, vObj{"rev": rd.cell.Rev, "rp": rd.cell.Rp, "cache": rd.cell.Cache})
+				unobserved = append(unobserved, vObj{"inst": in.idx, "doc": in.docID, "rp": rd.cell.Rp, "cache": rd.cell.Cache, "tok": tk.ID, "cls": tk.Class})
 				continue
 			}
-			o := vObj{"a": "Read", "rev": rd.cell.Rev, "rp": rd.cell.Rp, "cache": rd.cell.Cache, "status": rd.status, "valid": rd.valid,
+			o := vObj{"rev": rd.cell.Rev, "rp": rd.cell.Rp, "cache": rd.cell.Cache, "status": rd.status, "valid": rd.valid,
 				"got": rd.got, "extra": rd.extra, "kind": rd.cell.Kind, "wp": rd.cell.Wp, "expect": rd.cell.Expect,
-				"tokId": in.toks[rd.cell.Expect-1].ID, "tokCls": in.toks[rd.cell.Expect-1].Class}
+				"tokId": tk.ID, "tokCls": tk.Class}
 			if rd.diffP != "" || rd.raw != "" {
 				o["diff"] = vObj{"path": rd.diffP, "want": rd.diffW, "got": rd.diffG, "raw": rd.raw}
 			}
-			tw.Emit(o)
-			nlines++
+			items = append(items, o)
 		}
+		tw.Emit(vObj{"a": "Reads", "items": items, "skipped": skipped})
+		nlines++
 	}
 	cat := []vObj{}
 	for _, tk := range toks {
